@@ -3,7 +3,9 @@
   sixteen set handlers over arbitrary states (members as plain lists read as sets: `∈`, `Nodup`, `length`,
   `filter`), composed read-your-writes laws, and witnesses of the inputs on which the full statement
   fails (each one a class of Known.lean `classifyColl`). Stored sets are taken as unshared objects
-  (`.set 0 ms`) and keys as live (not "stored but expired").
+  (`.set 0 ms`) — an invariant of the set commands since SUNIONSTORE and SINTERSTORE store newly allocated
+  sets (`sunionstore_many`, `sinterstore_many`, `stored_copy_independent_of_source`) — and keys as live (not
+  "stored but expired").
 -/
 import SugarModel.Lemmas.SetLemmas
 namespace Sugar.Props.C16
@@ -398,8 +400,8 @@ theorem sinter_two (c : Ctx) (s : State) (k1 k2 : Bytes) (m1 m2 : List Bytes) (e
       (∀ x, x ∈ r ↔ x ∈ m1 ∧ x ∈ m2) ∧ (m1.Nodup → m2.Nodup → r.Nodup) := by
   have hrun : (handleSInter 0 c [b "sinter", k1, k2]).run c s =
       (interLoop (nthPerm c.order [(k1, true), (k2, true)]) (.ok (b "*0\r\n"))
-        (sinterTail 0 0 ((nthPerm c.order [(k1, true), (k2, true)]).headD ([], false)).1 k1)).run c s := by
-    simp [handleSInter, sinterReads, eraseDups_pair k1 k2 hne, keysExist_pair, h1, h2, sinterLimit]
+        (sinterTail 0 0)).run c s := by
+    simp [handleSInter, handleSInterRead, sinterReads, eraseDups_pair k1 k2 hne, keysExist_pair, h1, h2, sinterLimit]
   rw [hrun]
   rcases nthPerm_pair c.order (k1, true) (k2, true) with hp | hp
   · rw [hp, run_interLoop_two c s k1 k2 m1 m2 e1 e2 _ _ h1 l1 h2 l2]
@@ -419,16 +421,17 @@ theorem sinter_absent_operand (c : Ctx) (s : State) (k1 k2 : Bytes) (m1 : List B
   have hne : k1 ≠ k2 := by intro h; subst h; rw [h1] at h2; cases h2
   have hrun : (handleSInter 0 c [b "sinter", k1, k2]).run c s =
       (interLoop (nthPerm c.order [(k1, true), (k2, false)]) (.ok (b "*0\r\n"))
-        (sinterTail 0 0 ((nthPerm c.order [(k1, true), (k2, false)]).headD ([], false)).1 k1)).run c s := by
-    simp [handleSInter, sinterReads, eraseDups_pair k1 k2 hne, keysExist_pair, h1, h2, sinterLimit]
+        (sinterTail 0 0)).run c s := by
+    simp [handleSInter, handleSInterRead, sinterReads, eraseDups_pair k1 k2 hne, keysExist_pair, h1, h2, sinterLimit]
   rw [hrun]
   rcases nthPerm_pair c.order (k1, true) (k2, false) with hp | hp
   · rw [hp, run_interLoop_absent_second c s k1 k2 m1 e1 _ _ h1 l1]
   · rw [hp, run_interLoop_absent_first]
 
-/-- **SINTERSTORE dest k1 k2** (distinct operands, both live sets; `dest` arbitrary): the destination is
-    replaced by a set of exactly the common members, duplicate-free if the operands are (deadline of an
-    existing destination kept), the reply is its size, other keys untouched -/
+/-- **SINTERSTORE dest k1 k2** (distinct operands, both live sets; `dest` arbitrary, operands included): the
+    destination is replaced by a newly allocated, unshared set of exactly the common members, duplicate-free if
+    the first operand is (deadline of an existing destination kept), the reply is its size, every other key —
+    the operands included — is untouched. The operands are walked in command order: no `Ctx.order` is involved. -/
 theorem sinterstore_two (c : Ctx) (s : State) (d k1 k2 : Bytes) (m1 m2 : List Bytes) (e1 e2 : Option Int)
     (hm : c.cfg.maxMemory = 0) (hne : k1 ≠ k2)
     (h1 : s.lookup c.db k1 = some ⟨.set 0 m1, e1⟩) (l1 : (⟨.set 0 m1, e1⟩ : Entry).expired c.now = false)
@@ -437,28 +440,160 @@ theorem sinterstore_two (c : Ctx) (s : State) (d k1 k2 : Bytes) (m1 m2 : List By
       s'.lookup c.db d = some ⟨.set 0 r, (s.lookup c.db d).bind (·.exp)⟩ ∧
       (∀ k', d ≠ k' → s'.lookup c.db k' = s.lookup c.db k') ∧
       (∀ x, x ∈ r ↔ x ∈ m1 ∧ x ∈ m2) ∧ (m1.Nodup → m2.Nodup → r.Nodup) := by
-  have hrun : (handleSInter 1 c [b "sinterstore", d, k1, k2]).run c s =
-      (interLoop (nthPerm c.order [(k1, true), (k2, true)]) (.ok (intReply 0))
-        (sinterTail 1 0 ((nthPerm c.order [(k1, true), (k2, true)]).headD ([], false)).1 d)).run c s := by
-    simp [handleSInter, sinterReads, eraseDups_pair k1 k2 hne, keysExist_pair, h1, h2, sinterLimit]
-  rw [hrun]
-  rcases nthPerm_pair c.order (k1, true) (k2, true) with hp | hp
-  · rw [hp, run_interLoop_two c s k1 k2 m1 m2 e1 e2 _ _ h1 l1 h2 l2]
-    refine ⟨(setValues c s [(d, .set 0 (inter2 0 m1 m2))]).1, inter2 0 m1 m2, ?_,
-      (setValues_single c s d _ hm).2.1, (setValues_single c s d _ hm).2.2,
-      mem_inter2_zero m1 m2, fun hn _ => nodup_inter2_zero m1 m2 hn⟩
-    simp [sinterTail, interAll, sinterStore, run_setOrErr_single _ _ _ _ _ hm]
-  · rw [hp, run_interLoop_two c s k2 k1 m2 m1 e2 e1 _ _ h2 l2 h1 l1]
-    refine ⟨(setValues c s [(d, .set 0 (inter2 0 m2 m1))]).1, inter2 0 m2 m1, ?_,
-      (setValues_single c s d _ hm).2.1, (setValues_single c s d _ hm).2.2,
-      fun x => (mem_inter2_zero m2 m1 x).trans And.comm, fun _ hn => nodup_inter2_zero m2 m1 hn⟩
-    simp [sinterTail, interAll, sinterStore, run_setOrErr_single _ _ _ _ _ hm]
+  refine ⟨(setValues c s [(d, .set 0 (inter2 0 m1 m2))]).1, inter2 0 m1 m2, ?_,
+    (setValues_single c s d _ hm).2.1, (setValues_single c s d _ hm).2.2,
+    mem_inter2_zero m1 m2, fun hn _ => nodup_inter2_zero m1 m2 hn⟩
+  simp [handleSInter, handleSInterStore, eraseDups_pair k1 k2 hne, keysExist_pair, h1, h2, storeLoop,
+    getValues_live _ _ _ _ h1 l1, getValues_live _ _ _ _ h2 l2, asSet?, interAll, run_setOrErr_single _ _ _ _ _ hm]
+
+/-- **SINTERSTORE dest a** (one operand, a live set): the destination receives a *copy* — a newly allocated,
+    unshared set object with exactly the members of `a` — and every other key, `a` included when `dest ≠ a`,
+    is untouched. (Was the aliasing site of classes `sinterstore-single-key-aliases-source` and
+    `set-object-shared-between-keys`: the destination held `a`'s own object. Repaired upstream.) -/
+theorem sinterstore_single_copies (c : Ctx) (s : State) (d a : Bytes) (ms : List Bytes) (ex : Option Int)
+    (hm : c.cfg.maxMemory = 0)
+    (h : s.lookup c.db a = some ⟨.set 0 ms, ex⟩) (hlive : (⟨.set 0 ms, ex⟩ : Entry).expired c.now = false) :
+    ∃ s', (handleSInter 1 c [b "sinterstore", d, a]).run c s = (s', .done (.ok (intReply ms.length))) ∧
+      s'.lookup c.db d = some ⟨.set 0 ms, (s.lookup c.db d).bind (·.exp)⟩ ∧
+      ∀ k', d ≠ k' → s'.lookup c.db k' = s.lookup c.db k' := by
+  refine ⟨(setValues c s [(d, .set 0 ms)]).1, ?_, (setValues_single c s d _ hm).2.1, (setValues_single c s d _ hm).2.2⟩
+  simp [handleSInter, handleSInterStore, keysExist_single, h, storeLoop, getValues_live _ _ _ _ h hlive, asSet?,
+    interAll, run_setOrErr_single _ _ _ _ _ hm]
+
+/-- **an absent operand empties the destination**: SINTERSTORE dest k1 k2 with `k2` absent (in either position)
+    replaces the destination with the empty set and answers 0; every other key is untouched. (Was class
+    `sinterstore-absent-operand-keeps-destination`: the old destination stayed in place. Repaired upstream.) -/
+theorem sinterstore_absent_operand (c : Ctx) (s : State) (d k1 k2 : Bytes) (m1 : List Bytes) (e1 : Option Int)
+    (hm : c.cfg.maxMemory = 0)
+    (h1 : s.lookup c.db k1 = some ⟨.set 0 m1, e1⟩) (l1 : (⟨.set 0 m1, e1⟩ : Entry).expired c.now = false)
+    (h2 : s.lookup c.db k2 = none) :
+    (∃ s', (handleSInter 1 c [b "sinterstore", d, k1, k2]).run c s = (s', .done (.ok (intReply 0))) ∧
+      s'.lookup c.db d = some ⟨.set 0 [], (s.lookup c.db d).bind (·.exp)⟩ ∧
+      ∀ k', d ≠ k' → s'.lookup c.db k' = s.lookup c.db k') ∧
+    (∃ s', (handleSInter 1 c [b "sinterstore", d, k2, k1]).run c s = (s', .done (.ok (intReply 0))) ∧
+      s'.lookup c.db d = some ⟨.set 0 [], (s.lookup c.db d).bind (·.exp)⟩ ∧
+      ∀ k', d ≠ k' → s'.lookup c.db k' = s.lookup c.db k') := by
+  have hne : k1 ≠ k2 := by intro h; subst h; rw [h1] at h2; cases h2
+  constructor
+  · refine ⟨(setValues c s [(d, .set 0 [])]).1, ?_, (setValues_single c s d _ hm).2.1, (setValues_single c s d _ hm).2.2⟩
+    simp [handleSInter, handleSInterStore, eraseDups_pair k1 k2 hne, keysExist_pair, h1, h2, storeLoop,
+      getValues_live _ _ _ _ h1 l1, asSet?, run_setOrErr_single _ _ _ _ _ hm]
+  · refine ⟨(setValues c s [(d, .set 0 [])]).1, ?_, (setValues_single c s d _ hm).2.1, (setValues_single c s d _ hm).2.2⟩
+    simp [handleSInter, handleSInterStore, eraseDups_pair k2 k1 (Ne.symm hne), keysExist_pair, h1, h2, storeLoop,
+      getValues_live _ _ _ _ h1 l1, asSet?, run_setOrErr_single _ _ _ _ _ hm]
+
+/-- **a value of another type is an error whichever operand is missing**: SINTERSTORE dest k1 k2 with `k1` absent
+    and `k2` holding a live value that is not a set fails, in either operand order, and changes nothing — the
+    outcome does not depend on the order in which an operand map is walked -/
+theorem sinterstore_wrongtype_beats_absent (c : Ctx) (s : State) (d k1 k2 : Bytes) (v : Val) (e2 : Option Int)
+    (h1 : s.lookup c.db k1 = none)
+    (h2 : s.lookup c.db k2 = some ⟨v, e2⟩) (l2 : (⟨v, e2⟩ : Entry).expired c.now = false) (hv : asSet? v = none) :
+    (handleSInter 1 c [b "sinterstore", d, k1, k2]).run c s = (s, .done (.err (notSet k2))) ∧
+    (handleSInter 1 c [b "sinterstore", d, k2, k1]).run c s = (s, .done (.err (notSet k2))) := by
+  have hne : k1 ≠ k2 := by intro h; subst h; rw [h2] at h1; cases h1
+  constructor
+  · simp [handleSInter, handleSInterStore, eraseDups_pair k1 k2 hne, keysExist_pair, h1, h2, storeLoop,
+      getValues_live _ _ _ _ h2 l2, hv]
+  · simp [handleSInter, handleSInterStore, eraseDups_pair k2 k1 (Ne.symm hne), keysExist_pair, h1, h2, storeLoop,
+      getValues_live _ _ _ _ h2 l2, hv]
+
+/-- **SINTERSTORE dest k₁ … kₙ** — the algebra over the sets named, any number of operand keys (repeated or
+    not), each one absent or a live set, `dest` arbitrary: the destination is replaced by a newly allocated,
+    unshared set that holds exactly the members common to *all* operands — none as soon as one operand is
+    absent —, the reply is its size, and every other key, the operands included, is untouched. -/
+theorem sinterstore_many (c : Ctx) (s : State) (d : Bytes) (ks : List Bytes) (hm : c.cfg.maxMemory = 0)
+    (hks : ks ≠ []) (ho : ∀ k, k ∈ ks → SetOrAbsent c s k) :
+    ∃ s' r, (handleSInter 1 c (b "sinterstore" :: d :: ks)).run c s = (s', .done (.ok (intReply r.length))) ∧
+      s'.lookup c.db d = some ⟨.set 0 r, (s.lookup c.db d).bind (·.exp)⟩ ∧
+      (∀ k', d ≠ k' → s'.lookup c.db k' = s.lookup c.db k') ∧
+      (∀ x, x ∈ r ↔ ∀ k, k ∈ ks → ∃ ms, membersAt s c.db k = some ms ∧ x ∈ ms) ∧
+      ((∀ k ms, k ∈ ks → membersAt s c.db k = some ms → ms.Nodup) → r.Nodup) := by
+  obtain ⟨L, hL⟩ : ∃ L, L = ks.eraseDups.map fun k => (k, (s.lookup c.db k).isSome) := ⟨_, rfl⟩
+  obtain ⟨sets, hsets⟩ : ∃ sets, sets = L.filterMap fun p => membersAt s c.db p.1 := ⟨_, rfl⟩
+  obtain ⟨r, hr⟩ : ∃ r, r = if (L.any fun p => !p.2) then [] else interAll sets.length sets := ⟨_, rfl⟩
+  have hmemL : ∀ p, p ∈ L ↔ ∃ k, k ∈ ks ∧ p = (k, (s.lookup c.db k).isSome) := by
+    intro p; rw [hL, List.mem_map]
+    constructor
+    · rintro ⟨k, hk, rfl⟩; exact ⟨k, List.mem_eraseDups.mp hk, rfl⟩
+    · rintro ⟨k, hk, rfl⟩; exact ⟨k, List.mem_eraseDups.mpr hk, rfl⟩
+  have hLok : ∀ p ∈ L, p.2 = (s.lookup c.db p.1).isSome ∧ SetOrAbsent c s p.1 := by
+    intro p hp
+    obtain ⟨k, hk, rfl⟩ := (hmemL p).mp hp
+    exact ⟨rfl, ho k hk⟩
+  have hmemS : ∀ a, a ∈ sets ↔ ∃ k, k ∈ ks ∧ membersAt s c.db k = some a := by
+    intro a; rw [hsets, List.mem_filterMap]
+    constructor
+    · rintro ⟨p, hp, ha⟩
+      obtain ⟨k, hk, rfl⟩ := (hmemL p).mp hp
+      exact ⟨k, hk, ha⟩
+    · rintro ⟨k, hk, ha⟩
+      exact ⟨_, (hmemL _).mpr ⟨k, hk, rfl⟩, ha⟩
+  refine ⟨(setValues c s [(d, .set 0 r)]).1, r, ?_, (setValues_single c s d _ hm).2.1, (setValues_single c s d _ hm).2.2, ?_, ?_⟩
+  · have hlen : ¬ (ks.length + 1 + 1 < 3) := by
+      cases ks with
+      | nil => exact absurd rfl hks
+      | cons a t => simp
+    have hrun : (handleSInter 1 c (b "sinterstore" :: d :: ks)).run c s =
+        (storeLoop L fun empty sets =>
+          setOrErr [(d, .set 0 (if empty then [] else interAll sets.length sets))]
+            (.ret (.ok (intReply (if empty then [] else interAll sets.length sets).length)))).run c s := by
+      simp [handleSInter, handleSInterStore, hlen, zip_keysExist, hL]
+    rw [hrun, run_storeLoop c s L _ hLok, ← hsets, ← hr, run_setOrErr_single _ _ _ _ _ hm]
+    rfl
+  · intro x
+    by_cases hany : (L.any fun p => !p.2) = true
+    · have hr0 : r = [] := by rw [hr, if_pos hany]
+      obtain ⟨p, hp, hp2⟩ := List.any_eq_true.mp hany
+      obtain ⟨k, hk, rfl⟩ := (hmemL p).mp hp
+      have hnone : s.lookup c.db k = none := by
+        cases hh : s.lookup c.db k with
+        | none => rfl
+        | some e => simp [hh] at hp2
+      rw [hr0]
+      constructor
+      · intro hx; cases hx
+      · intro hall
+        obtain ⟨ms, hms, _⟩ := hall k hk
+        simp [membersAt, hnone] at hms
+    · have hr1 : r = interAll sets.length sets := by rw [hr, if_neg hany]
+      have hpres : ∀ k, k ∈ ks → ∃ ms, membersAt s c.db k = some ms := by
+        intro k hk
+        rcases ho k hk with h0 | ⟨ms, ex, h1, _⟩
+        · exfalso; apply hany
+          exact List.any_eq_true.mpr ⟨_, (hmemL _).mpr ⟨k, hk, rfl⟩, by simp [h0]⟩
+        · exact ⟨ms, by simp [membersAt, h1]⟩
+      have hne : sets ≠ [] := by
+        cases ks with
+        | nil => exact absurd rfl hks
+        | cons a t =>
+          obtain ⟨ms, hms⟩ := hpres a (by simp)
+          intro h0
+          have : ms ∈ sets := (hmemS ms).mpr ⟨a, by simp, hms⟩
+          rw [h0] at this; cases this
+      rw [hr1, mem_interAll x sets.length sets hne (by omega)]
+      constructor
+      · intro hall k hk
+        obtain ⟨ms, hms⟩ := hpres k hk
+        exact ⟨ms, hms, hall ms ((hmemS ms).mpr ⟨k, hk, hms⟩)⟩
+      · intro hall a ha
+        obtain ⟨k, hk, hka⟩ := (hmemS a).mp ha
+        obtain ⟨ms, hms, hx⟩ := hall k hk
+        rw [hka] at hms
+        cases hms
+        exact hx
+  · intro hnd
+    rw [hr]
+    split
+    · exact List.nodup_nil
+    · exact nodup_interAll _ _ fun a ha => by
+        obtain ⟨k, hk, hka⟩ := (hmemS a).mp ha
+        exact hnd k a hk hka
 
 /-- **SINTER of one key** answers that set's members, state unchanged -/
 theorem sinter_single (c : Ctx) (s : State) (k : Bytes) (ms : List Bytes) (ex : Option Int)
     (h : s.lookup c.db k = some ⟨.set 0 ms, ex⟩) (hlive : (⟨.set 0 ms, ex⟩ : Entry).expired c.now = false) :
     (handleSInter 0 c [b "sinter", k]).run c s = (s, .done (.okPerm (arrHdr ms.length) (ms.map bulkStr))) := by
-  simp [handleSInter, sinterReads, keysExist_single, h, sinterLimit, nthPerm_single, interLoop,
+  simp [handleSInter, handleSInterRead, sinterReads, keysExist_single, h, sinterLimit, nthPerm_single, interLoop,
     getValues_live _ _ _ _ h hlive, asSet?, sinterTail, interAll, setArrReply]
 
 /-- the key names a SINTERCARD command line can carry without being mistaken for the LIMIT keyword -/
@@ -472,7 +607,7 @@ theorem sintercard_name_facts : isAscii (b "sintercard") = true ∧ eqFold (b "s
 theorem sintercard_single (c : Ctx) (s : State) (k : Bytes) (ms : List Bytes) (ex : Option Int) (p : PlainKey k)
     (h : s.lookup c.db k = some ⟨.set 0 ms, ex⟩) (hlive : (⟨.set 0 ms, ex⟩ : Entry).expired c.now = false) :
     (handleSInter 2 c [b "sintercard", k]).run c s = (s, .done (.ok (intReply ms.length))) := by
-  simp [handleSInter, sinterReads, keysExist_single, h, sinterLimit, nthPerm_single, interLoop,
+  simp [handleSInter, handleSInterRead, sinterReads, keysExist_single, h, sinterLimit, nthPerm_single, interLoop,
     getValues_live _ _ _ _ h hlive, asSet?, sinterTail, interAll, sintercard_name_facts, p.1, p.2, List.findIdx?_cons]
 
 /-- **SINTERCARD k LIMIT n** (n > 0) **on one key: that set's size capped at `n`** — LIMIT bounds the answer
@@ -482,7 +617,7 @@ theorem sintercard_single_limit (c : Ctx) (s : State) (k l : Bytes) (n : Nat) (m
     (h : s.lookup c.db k = some ⟨.set 0 ms, ex⟩) (hlive : (⟨.set 0 ms, ex⟩ : Entry).expired c.now = false) :
     (handleSInter 2 c [b "sintercard", k, b "limit", l]).run c s
       = (s, .done (.ok (intReply ((min n ms.length : Nat) : Int)))) := by
-  simp [handleSInter, sinterReads, keysExist_single, h, sinterLimit, nthPerm_single, interLoop,
+  simp [handleSInter, handleSInterRead, sinterReads, keysExist_single, h, sinterLimit, nthPerm_single, interLoop,
     getValues_live _ _ _ _ h hlive, asSet?, sinterTail, interAll, sintercard_name_facts, p.1, p.2, List.findIdx?_cons,
     hl, hn, hpos]
   congr 1; split <;> omega
@@ -496,8 +631,8 @@ theorem sintercard_two (c : Ctx) (s : State) (k1 k2 : Bytes) (m1 m2 : List Bytes
       (∀ x, x ∈ r ↔ x ∈ m1 ∧ x ∈ m2) ∧ (m1.Nodup → m2.Nodup → r.Nodup) := by
   have hrun : (handleSInter 2 c [b "sintercard", k1, k2]).run c s =
       (interLoop (nthPerm c.order [(k1, true), (k2, true)]) (.ok (intReply 0))
-        (sinterTail 2 0 ((nthPerm c.order [(k1, true), (k2, true)]).headD ([], false)).1 k1)).run c s := by
-    simp [handleSInter, sinterReads, eraseDups_pair k1 k2 hne, keysExist_pair, h1, h2, sinterLimit,
+        (sinterTail 2 0)).run c s := by
+    simp [handleSInter, handleSInterRead, sinterReads, eraseDups_pair k1 k2 hne, keysExist_pair, h1, h2, sinterLimit,
       sintercard_name_facts, p1.1, p1.2, p2.1, p2.2, List.findIdx?_cons]
   rw [hrun]
   rcases nthPerm_pair c.order (k1, true) (k2, true) with hp | hp
@@ -520,8 +655,8 @@ theorem sintercard_two_limit (c : Ctx) (s : State) (k1 k2 l : Bytes) (n : Nat) (
       (∀ x, x ∈ r ↔ x ∈ m1 ∧ x ∈ m2) ∧ (m1.Nodup → m2.Nodup → r.Nodup) := by
   have hrun : (handleSInter 2 c [b "sintercard", k1, k2, b "limit", l]).run c s =
       (interLoop (nthPerm c.order [(k1, true), (k2, true)]) (.ok (intReply 0))
-        (sinterTail 2 n ((nthPerm c.order [(k1, true), (k2, true)]).headD ([], false)).1 k1)).run c s := by
-    simp [handleSInter, sinterReads, eraseDups_pair k1 k2 hne, keysExist_pair, h1, h2, sinterLimit,
+        (sinterTail 2 n)).run c s := by
+    simp [handleSInter, handleSInterRead, sinterReads, eraseDups_pair k1 k2 hne, keysExist_pair, h1, h2, sinterLimit,
       sintercard_name_facts, p1.1, p1.2, p2.1, p2.2, List.findIdx?_cons, hl, hn]
   rw [hrun]
   rcases nthPerm_pair c.order (k1, true) (k2, true) with hp | hp
@@ -539,9 +674,9 @@ theorem sintercard_two_limit (c : Ctx) (s : State) (k1 k2 l : Bytes) (n : Nat) (
     has read the sets, in whatever order the operand map was walked): the answer is the number of members common
     to *every* set — capped at the limit when one is given (`limit > 0`), and by nothing else. In particular a
     LIMIT over three or more sets no longer answers with the size of a partial intersection. -/
-theorem sintercard_tail (limit : Nat) (src dest : Bytes) (sets : List (Nat × List Bytes)) (hne : sets ≠ []) :
+theorem sintercard_tail (limit : Nat) (sets : List (Nat × List Bytes)) (hne : sets ≠ []) :
     ∃ r : List Bytes,
-      sinterTail 2 limit src dest sets = .ret (.ok (intReply ((if 0 < limit then min limit r.length else r.length : Nat) : Int))) ∧
+      sinterTail 2 limit sets = .ret (.ok (intReply ((if 0 < limit then min limit r.length else r.length : Nat) : Int))) ∧
       (∀ x, x ∈ r ↔ ∀ st ∈ sets, x ∈ st.2) ∧ ((∀ st ∈ sets, st.2.Nodup) → r.Nodup) := by
   refine ⟨interAll sets.length (sets.map (·.2)), ?_, fun x => ?_, fun h => nodup_interAll _ _ (by
       intro a ha; obtain ⟨st, hs, rfl⟩ := List.mem_map.mp ha; exact h st hs)⟩
@@ -606,8 +741,8 @@ theorem sintercard_many_limit (c : Ctx) (s : State) (ks : List Bytes) (mem : Byt
     simp [h]
   have hrun : (handleSInter 2 c cmd).run c s =
       (interLoop (nthPerm c.order (ks.map fun k => (k, true))) (.ok (intReply 0))
-        (sinterTail 2 n ((nthPerm c.order (ks.map fun k => (k, true))).headD ([], false)).1 (cmd.getD 1 []))).run c s := by
-    simp [handleSInter, h1, hall, hidx, hreads, hlim, eraseDups_of_nodup ks hnd, hex, zip_map_true]
+        (sinterTail 2 n)).run c s := by
+    simp [handleSInter, handleSInterRead, h1, hall, hidx, hreads, hlim, eraseDups_of_nodup ks hnd, hex, zip_map_true]
   rw [hrun]
   have hperm := nthPerm_perm c.order (ks.map fun k => (k, true))
   have hL : ∀ p ∈ nthPerm c.order (ks.map fun k => (k, true)), p.2 = true ∧
@@ -621,8 +756,7 @@ theorem sintercard_many_limit (c : Ctx) (s : State) (ks : List Bytes) (mem : Byt
     have := congrArg List.length h0
     simp only [List.length_map, hperm.length_eq, List.length_nil] at this
     omega
-  obtain ⟨r, hr, hmem, hnodup⟩ := sintercard_tail n ((nthPerm c.order (ks.map fun k => (k, true))).headD ([], false)).1
-    (cmd.getD 1 []) _ hne
+  obtain ⟨r, hr, hmem, hnodup⟩ := sintercard_tail n _ hne
   refine ⟨r, by rw [hr]; rfl, fun x => ?_, fun h => hnodup ?_⟩
   · rw [hmem]
     constructor
@@ -646,66 +780,151 @@ theorem sintercard_absent_operand (c : Ctx) (s : State) (k1 k2 : Bytes) (m1 : Li
   have hne : k1 ≠ k2 := by intro h; subst h; rw [h1] at h2; cases h2
   have hrun : (handleSInter 2 c [b "sintercard", k1, k2]).run c s =
       (interLoop (nthPerm c.order [(k1, true), (k2, false)]) (.ok (intReply 0))
-        (sinterTail 2 0 ((nthPerm c.order [(k1, true), (k2, false)]).headD ([], false)).1 k1)).run c s := by
-    simp [handleSInter, sinterReads, eraseDups_pair k1 k2 hne, keysExist_pair, h1, h2, sinterLimit,
+        (sinterTail 2 0)).run c s := by
+    simp [handleSInter, handleSInterRead, sinterReads, eraseDups_pair k1 k2 hne, keysExist_pair, h1, h2, sinterLimit,
       sintercard_name_facts, p1.1, p1.2, p2.1, p2.2, List.findIdx?_cons]
   rw [hrun]
   rcases nthPerm_pair c.order (k1, true) (k2, false) with hp | hp
   · rw [hp, run_interLoop_absent_second c s k1 k2 m1 e1 _ _ h1 l1]
   · rw [hp, run_interLoop_absent_first]
 
-/-! ### SUNION -/
+/-! ### SUNION / SUNIONSTORE
+
+  set.Union builds a new set and Set.Add's the members of every operand into it; the handlers examine their
+  operands in the order of the command line and never look at `Ctx.order`. SUNION therefore changes nothing at
+  all, and SUNIONSTORE changes the destination only: the stored object is newly allocated and unshared. -/
 
 /-- **SUNION of one key** answers that set's members, state unchanged -/
-theorem sunion_single (c : Ctx) (s : State) (k : Bytes) (ms : List Bytes) (ex : Option Int)
+theorem sunion_single (c : Ctx) (s : State) (k : Bytes) (ms : List Bytes) (ex : Option Int) (hnd : ms.Nodup)
     (h : s.lookup c.db k = some ⟨.set 0 ms, ex⟩) (hlive : (⟨.set 0 ms, ex⟩ : Entry).expired c.now = false) :
     (handleSUnion false c [b "sunion", k]).run c s = (s, .done (.okPerm (arrHdr ms.length) (ms.map bulkStr))) := by
-  simp [handleSUnion, getValues_live _ _ _ _ h hlive, nthPerm_single, asSet?, Val.oid, sunionTail, unionObjs,
-    writeBack, setArrReply]
+  have hu : unionMembers [ms] = ms := by simp [unionMembers, setAdd_nil_nodup ms hnd]
+  simp [handleSUnion, getValues_live _ _ _ _ h hlive, notSetVal, asSet?, hu, setArrReply]
 
-/-- **SUNION k1 k2** (distinct keys, both live sets): the reply lists exactly the members of either set,
-    whatever the operand order. (Nothing is claimed about the state: see `sunion_mutates_operand_witness`.) -/
-theorem sunion_two_reply (c : Ctx) (s : State) (k1 k2 : Bytes) (m1 m2 : List Bytes) (e1 e2 : Option Int)
+/-- **SUNION k1 k2 reads and changes nothing** (distinct keys, both live sets): the reply lists exactly the
+    members of either set, each once, and the state afterwards is the state before — both operands hold what
+    they held. (Was `sunion_two_reply`, which could claim nothing about the state: the handler used to add the
+    members of one operand into the other — class `sunion-mutates-operand`. Repaired upstream.) -/
+theorem sunion_two (c : Ctx) (s : State) (k1 k2 : Bytes) (m1 m2 : List Bytes) (e1 e2 : Option Int)
     (hne : k1 ≠ k2)
     (h1 : s.lookup c.db k1 = some ⟨.set 0 m1, e1⟩) (l1 : (⟨.set 0 m1, e1⟩ : Entry).expired c.now = false)
     (h2 : s.lookup c.db k2 = some ⟨.set 0 m2, e2⟩) (l2 : (⟨.set 0 m2, e2⟩ : Entry).expired c.now = false) :
-    ∃ r : List Bytes, ((handleSUnion false c [b "sunion", k1, k2]).run c s).2 = .done (.okPerm (arrHdr r.length) (r.map bulkStr)) ∧
-      (∀ x, x ∈ r ↔ x ∈ m1 ∨ x ∈ m2) ∧ (m1.Nodup → m2.Nodup → r.Nodup) := by
+    ∃ r : List Bytes, (handleSUnion false c [b "sunion", k1, k2]).run c s = (s, .done (.okPerm (arrHdr r.length) (r.map bulkStr))) ∧
+      (∀ x, x ∈ r ↔ x ∈ m1 ∨ x ∈ m2) ∧ r.Nodup := by
   have hg := getValues_live2 c s k1 k2 _ _ h1 l1 h2 l2
-  rcases nthPerm_pair c.order (k1, Val.set 0 m1) (k2, Val.set 0 m2) with hp | hp
-  · refine ⟨(setAdd m1 m2).1, ?_, mem_setAdd m1 m2, fun hn _ => nodup_setAdd m1 m2 hn⟩
-    by_cases hq : m1 = (setAdd m1 m2).1
-    · simp [handleSUnion, eraseDups_pair k1 k2 hne, hg, hp, asSet?, Val.oid, sunionTail, unionObjs, writeBack, setArrReply, ← hq]
-    · simp [handleSUnion, eraseDups_pair k1 k2 hne, hg, hp, asSet?, Val.oid, sunionTail, unionObjs, writeBack, setArrReply, hq]
-  · refine ⟨(setAdd m2 m1).1, ?_, fun x => (mem_setAdd m2 m1 x).trans Or.comm, fun _ hn => nodup_setAdd m2 m1 hn⟩
-    by_cases hq : m2 = (setAdd m2 m1).1
-    · simp [handleSUnion, eraseDups_pair k1 k2 hne, hg, hp, asSet?, Val.oid, sunionTail, unionObjs, writeBack, setArrReply, ← hq]
-    · simp [handleSUnion, eraseDups_pair k1 k2 hne, hg, hp, asSet?, Val.oid, sunionTail, unionObjs, writeBack, setArrReply, hq]
+  refine ⟨unionMembers [m1, m2], ?_, fun x => by simp [mem_unionMembers], nodup_unionMembers _⟩
+  simp [handleSUnion, eraseDups_pair k1 k2 hne, hg, notSetVal, asSet?, setArrReply]
 
-/-- **SUNIONSTORE dest k1 k2** (distinct operands, both live sets; `dest` arbitrary): the destination is
-    replaced by a set object whose members are exactly those of either operand, and the reply is its size.
-    Partial: the stored object may be shared with the first operand (non-zero object id), which the command
-    has also mutated — classes `sunion-mutates-operand`, `sunionstore-destination-aliases-source`; nothing is
-    claimed about the other keys or the destination's deadline. -/
-theorem sunionstore_two_partial (c : Ctx) (s : State) (d k1 k2 : Bytes) (m1 m2 : List Bytes) (e1 e2 : Option Int)
+/-- **an absent key never contributes members**: SUNION k1 k2 with `k2` absent (in either position) answers
+    the members of `k1`, state unchanged. (Was class `sunion-absent-key-rejected`: the command failed with
+    "value at key k2 is not a set". Repaired upstream.) -/
+theorem sunion_absent_operand (c : Ctx) (s : State) (k1 k2 : Bytes) (m1 : List Bytes) (e1 : Option Int)
+    (h1 : s.lookup c.db k1 = some ⟨.set 0 m1, e1⟩) (l1 : (⟨.set 0 m1, e1⟩ : Entry).expired c.now = false)
+    (h2 : s.lookup c.db k2 = none) :
+    ∃ r : List Bytes,
+      (handleSUnion false c [b "sunion", k1, k2]).run c s = (s, .done (.okPerm (arrHdr r.length) (r.map bulkStr))) ∧
+      (handleSUnion false c [b "sunion", k2, k1]).run c s = (s, .done (.okPerm (arrHdr r.length) (r.map bulkStr))) ∧
+      (∀ x, x ∈ r ↔ x ∈ m1) ∧ r.Nodup ∧ (m1.Nodup → r = m1) := by
+  have hne : k1 ≠ k2 := by intro h; subst h; rw [h1] at h2; cases h2
+  refine ⟨unionMembers [m1], ?_, ?_, fun x => by simp [mem_unionMembers], nodup_unionMembers _,
+    fun hn => by simp [unionMembers, setAdd_nil_nodup m1 hn]⟩
+  · simp [handleSUnion, eraseDups_pair k1 k2 hne, getValues_live_absent c s k1 k2 _ h1 l1 h2, notSetVal, asSet?, setArrReply]
+  · have hg : getValues c s [k2, k1] = (s, [.nil, .set 0 m1]) := by simp [getValues, h1, h2, l1]
+    simp [handleSUnion, eraseDups_pair k2 k1 (Ne.symm hne), hg, notSetVal, asSet?, setArrReply]
+
+/-- SUNION of absent keys only answers the empty array, state unchanged -/
+theorem sunion_all_absent (c : Ctx) (s : State) (k : Bytes) (h : s.lookup c.db k = none) :
+    (handleSUnion false c [b "sunion", k]).run c s = (s, .done (.okPerm (b "*0\r\n") [])) := by
+  simp [handleSUnion, getValues_absent _ _ _ h, notSetVal, asSet?, setArrReply, unionMembers, setAdd]
+  rfl
+
+/-- the keys zipped onto the values one GetValues call serves for them -/
+theorem zip_map_valAt (s : State) (db : Nat) (ks : List Bytes) :
+    ks.zip (ks.map (valAt s db)) = ks.map fun k => (k, valAt s db k) := by
+  induction ks with
+  | nil => rfl
+  | cons a r ih => simp [ih]
+
+/-- what the SUNION handlers compute once their operands are known to be absent keys or live sets: no operand is
+    refused, and the union is taken over the member lists of the operands that hold a set -/
+theorem sunion_core (c : Ctx) (s : State) (ks : List Bytes) (ho : ∀ k, k ∈ ks → SetOrAbsent c s k) :
+    getValues c s ks.eraseDups = (s, ks.eraseDups.map (valAt s c.db)) ∧
+    ((ks.eraseDups.zip (ks.eraseDups.map (valAt s c.db))).find? fun p => notSetVal p.2) = none ∧
+    ((ks.eraseDups.map (valAt s c.db)).filterMap fun v => (asSet? v).map (·.2)) = ks.eraseDups.filterMap (membersAt s c.db) := by
+  have ho' : ∀ k, k ∈ ks.eraseDups → SetOrAbsent c s k := fun k hk => ho k (List.mem_eraseDups.mp hk)
+  refine ⟨getValues_setOrAbsent c s _ ho', ?_, ?_⟩
+  · rw [zip_map_valAt, List.find?_eq_none]
+    intro p hp
+    obtain ⟨k, hk, rfl⟩ := List.mem_map.mp hp
+    simp [notSetVal_valAt c s k (ho' k hk)]
+  · rw [List.filterMap_map]
+    congr 1
+    funext k
+    exact asSet_valAt s c.db k
+
+/-- membership in the union of the operands that hold a set -/
+theorem mem_union_operands (s : State) (db : Nat) (ks : List Bytes) (x : Bytes) :
+    x ∈ unionMembers (ks.eraseDups.filterMap (membersAt s db)) ↔ ∃ k, k ∈ ks ∧ ∃ ms, membersAt s db k = some ms ∧ x ∈ ms := by
+  rw [mem_unionMembers]
+  constructor
+  · rintro ⟨ms, hms, hx⟩
+    obtain ⟨k, hk, hkm⟩ := List.mem_filterMap.mp hms
+    exact ⟨k, List.mem_eraseDups.mp hk, ms, hkm, hx⟩
+  · rintro ⟨k, hk, ms, hkm, hx⟩
+    exact ⟨ms, List.mem_filterMap.mpr ⟨k, List.mem_eraseDups.mpr hk, hkm⟩, hx⟩
+
+/-- **SUNION k₁ … kₙ** — the algebra over the sets named, any number of keys (repeated or not), each one absent
+    or a live set: the reply lists exactly the members held by at least one of the sets, each once; an absent
+    key contributes nothing; the state is unchanged — SUNION is a pure reader -/
+theorem sunion_many (c : Ctx) (s : State) (ks : List Bytes) (hks : ks ≠ []) (ho : ∀ k, k ∈ ks → SetOrAbsent c s k) :
+    ∃ r : List Bytes, (handleSUnion false c (b "sunion" :: ks)).run c s = (s, .done (.okPerm (arrHdr r.length) (r.map bulkStr))) ∧
+      (∀ x, x ∈ r ↔ ∃ k, k ∈ ks ∧ ∃ ms, membersAt s c.db k = some ms ∧ x ∈ ms) ∧ r.Nodup := by
+  obtain ⟨hg, hf, hm⟩ := sunion_core c s ks ho
+  refine ⟨unionMembers (ks.eraseDups.filterMap (membersAt s c.db)), ?_, mem_union_operands s c.db ks, nodup_unionMembers _⟩
+  have hlen : ¬ (ks.length + 1 < 2) := by
+    cases ks with
+    | nil => exact absurd rfl hks
+    | cons a t => simp
+  simp [handleSUnion, hlen, hg, hf, hm, setArrReply]
+
+/-- **SUNIONSTORE dest k₁ … kₙ** — any number of operand keys (repeated or not), each one absent or a live set,
+    `dest` arbitrary (operands included): the destination is replaced by a *newly allocated, unshared* set
+    (`.set 0 _`) holding exactly the members of at least one operand, each once (deadline of an existing
+    destination kept); the reply is its size; **every other key — each operand included — is untouched**. (Was
+    `sunionstore_two_partial`: the stored object used to be the first operand's own, mutated, object — classes
+    `sunion-mutates-operand`, `sunionstore-destination-aliases-source`. Repaired upstream.) -/
+theorem sunionstore_many (c : Ctx) (s : State) (d : Bytes) (ks : List Bytes) (hm : c.cfg.maxMemory = 0)
+    (hks : ks ≠ []) (ho : ∀ k, k ∈ ks → SetOrAbsent c s k) :
+    ∃ s' r, (handleSUnion true c (b "sunionstore" :: d :: ks)).run c s = (s', .done (.ok (intReply r.length))) ∧
+      s'.lookup c.db d = some ⟨.set 0 r, (s.lookup c.db d).bind (·.exp)⟩ ∧
+      (∀ k', d ≠ k' → s'.lookup c.db k' = s.lookup c.db k') ∧
+      (∀ x, x ∈ r ↔ ∃ k, k ∈ ks ∧ ∃ ms, membersAt s c.db k = some ms ∧ x ∈ ms) ∧ r.Nodup := by
+  obtain ⟨hg, hf, hmm⟩ := sunion_core c s ks ho
+  refine ⟨(setValues c s [(d, .set 0 (unionMembers (ks.eraseDups.filterMap (membersAt s c.db))))]).1,
+    unionMembers (ks.eraseDups.filterMap (membersAt s c.db)), ?_,
+    (setValues_single c s d _ hm).2.1, (setValues_single c s d _ hm).2.2, mem_union_operands s c.db ks, nodup_unionMembers _⟩
+  have hlen : ¬ (ks.length + 1 + 1 < 3) := by
+    cases ks with
+    | nil => exact absurd rfl hks
+    | cons a t => simp
+  simp [handleSUnion, hlen, hg, hf, hmm, run_setOrErr_single _ _ _ _ _ hm]
+
+/-- **SUNIONSTORE dest k1 k2** (distinct operands, both live sets; `dest` arbitrary, operands included): the full
+    statement on two operands — fresh unshared object at the destination, members of either operand, operands
+    and every other key untouched -/
+theorem sunionstore_two (c : Ctx) (s : State) (d k1 k2 : Bytes) (m1 m2 : List Bytes) (e1 e2 : Option Int)
     (hm : c.cfg.maxMemory = 0) (hne : k1 ≠ k2)
     (h1 : s.lookup c.db k1 = some ⟨.set 0 m1, e1⟩) (l1 : (⟨.set 0 m1, e1⟩ : Entry).expired c.now = false)
     (h2 : s.lookup c.db k2 = some ⟨.set 0 m2, e2⟩) (l2 : (⟨.set 0 m2, e2⟩ : Entry).expired c.now = false) :
-    ∃ s' o r ex', (handleSUnion true c [b "sunionstore", d, k1, k2]).run c s = (s', .done (.ok (intReply r.length))) ∧
-      s'.lookup c.db d = some ⟨.set o r, ex'⟩ ∧
-      (∀ x, x ∈ r ↔ x ∈ m1 ∨ x ∈ m2) ∧ (m1.Nodup → m2.Nodup → r.Nodup) := by
+    ∃ s' r, (handleSUnion true c [b "sunionstore", d, k1, k2]).run c s = (s', .done (.ok (intReply r.length))) ∧
+      s'.lookup c.db d = some ⟨.set 0 r, (s.lookup c.db d).bind (·.exp)⟩ ∧
+      (∀ k', d ≠ k' → s'.lookup c.db k' = s.lookup c.db k') ∧
+      (∀ x, x ∈ r ↔ x ∈ m1 ∨ x ∈ m2) ∧ r.Nodup := by
   have hg := getValues_live2 c s k1 k2 _ _ h1 l1 h2 l2
-  rcases nthPerm_pair c.order (k1, Val.set 0 m1) (k2, Val.set 0 m2) with hp | hp
-  · obtain ⟨sX, o, hr⟩ := run_sunionTail_store_two c s d k1 k2 m1 m2 hm
-    refine ⟨_, o, (setAdd m1 m2).1, _, ?_, (setValues_single c sX d _ hm).2.1, mem_setAdd m1 m2,
-      fun hn _ => nodup_setAdd m1 m2 hn⟩
-    rw [← hr]
-    simp [handleSUnion, eraseDups_pair k1 k2 hne, hg, hp, asSet?, Val.oid]
-  · obtain ⟨sX, o, hr⟩ := run_sunionTail_store_two c s d k2 k1 m2 m1 hm
-    refine ⟨_, o, (setAdd m2 m1).1, _, ?_, (setValues_single c sX d _ hm).2.1,
-      fun x => (mem_setAdd m2 m1 x).trans Or.comm, fun _ hn => nodup_setAdd m2 m1 hn⟩
-    rw [← hr]
-    simp [handleSUnion, eraseDups_pair k1 k2 hne, hg, hp, asSet?, Val.oid]
+  refine ⟨(setValues c s [(d, .set 0 (unionMembers [m1, m2]))]).1, unionMembers [m1, m2], ?_,
+    (setValues_single c s d _ hm).2.1, (setValues_single c s d _ hm).2.2,
+    fun x => by simp [mem_unionMembers], nodup_unionMembers _⟩
+  simp [handleSUnion, eraseDups_pair k1 k2 hne, hg, notSetVal, asSet?, run_setOrErr_single _ _ _ _ _ hm]
 
 /-! ### SMOVE -/
 
@@ -1018,6 +1237,40 @@ theorem read_after_sinterstore (c : Ctx) (s : State) (d k1 k2 x : Bytes) (m1 m2 
     simp [r4 x]
   · rw [scard_reports c s' d _ _ r2 hl]
 
+/-- **SUNIONSTORE then SISMEMBER / SCARD**: the destination reads back as the union -/
+theorem read_after_sunionstore (c : Ctx) (s : State) (d k1 k2 x : Bytes) (m1 m2 : List Bytes) (e1 e2 : Option Int)
+    (hm : c.cfg.maxMemory = 0) (hd : NotStale c s d) (hne : k1 ≠ k2)
+    (h1 : s.lookup c.db k1 = some ⟨.set 0 m1, e1⟩) (l1 : (⟨.set 0 m1, e1⟩ : Entry).expired c.now = false)
+    (h2 : s.lookup c.db k2 = some ⟨.set 0 m2, e2⟩) (l2 : (⟨.set 0 m2, e2⟩ : Entry).expired c.now = false) :
+    ((handleSIsMember c [b "sismember", d, x]).run c ((handleSUnion true c [b "sunionstore", d, k1, k2]).run c s).1).2
+      = .done (.ok (intReply (if x ∈ m1 ∨ x ∈ m2 then 1 else 0))) ∧
+    ((handleSCard c [b "scard", d]).run c ((handleSUnion true c [b "sunionstore", d, k1, k2]).run c s).1).2
+      = ((handleSUnion true c [b "sunionstore", d, k1, k2]).run c s).2 := by
+  obtain ⟨s', r, r1, r2, _, r4, _⟩ := sunionstore_two c s d k1 k2 m1 m2 e1 e2 hm hne h1 l1 h2 l2
+  have hl := live_after_store c s d (.set 0 r) hd
+  rw [r1]
+  constructor
+  · rw [sismember_reports c s' d x _ _ r2 hl]
+    simp [r4 x]
+  · rw [scard_reports c s' d _ _ r2 hl]
+
+/-- **sets named by different keys are independent** — the stored result shares nothing with its source: after
+    SINTERSTORE d a (or, by `sunionstore_many`, SUNIONSTORE) a later SADD through the source key changes the source
+    and leaves the destination holding exactly what was stored. (The converse of the former
+    `shared_object_witness`; with it the hypothesis "unshared object" of every law above is an invariant of the
+    set commands: no handler stores a non-zero object id any more.) -/
+theorem stored_copy_independent_of_source (c : Ctx) (s : State) (d a : Bytes) (ms es : List Bytes) (ex : Option Int)
+    (hm : c.cfg.maxMemory = 0) (hne : d ≠ a) (hes : es ≠ [])
+    (h : s.lookup c.db a = some ⟨.set 0 ms, ex⟩) (hlive : (⟨.set 0 ms, ex⟩ : Entry).expired c.now = false) :
+    ∃ s1 s2, (handleSInter 1 c [b "sinterstore", d, a]).run c s = (s1, .done (.ok (intReply ms.length))) ∧
+      (handleSAdd c (b "sadd" :: a :: es)).run c s1 = (s2, .done (.ok (intReply (setAdd ms es).2))) ∧
+      s2.lookup c.db a = some ⟨.set 0 (setAdd ms es).1, ex⟩ ∧
+      s2.lookup c.db d = some ⟨.set 0 ms, (s.lookup c.db d).bind (·.exp)⟩ := by
+  obtain ⟨s1, r1, r2, r3⟩ := sinterstore_single_copies c s d a ms ex hm h hlive
+  have ha : s1.lookup c.db a = some ⟨.set 0 ms, ex⟩ := by rw [r3 a hne, h]
+  obtain ⟨s2, q1, q2, q3⟩ := sadd_existing c s1 a ms es ex ha hlive hes
+  exact ⟨s1, s2, r1, q1, q2, by rw [q3 d (Ne.symm hne), r2]⟩
+
 /-- **SPOP then SISMEMBER**: afterwards exactly the members that were not popped are reported -/
 theorem read_after_spop (c : Ctx) (s : State) (k cnt : Bytes) (ms : List Bytes) (n : Int) (ex : Option Int)
     (hcnt : adaptType cnt = .int n)
@@ -1035,7 +1288,8 @@ theorem read_after_spop (c : Ctx) (s : State) (k cnt : Bytes) (ms : List Bytes) 
 
 /-- **Wrong type fails and changes nothing**, single-key commands: on a key holding a live value that is
     not a set, SADD, SREM, SCARD, SISMEMBER, SMISMEMBER, SMEMBERS, SPOP, SRANDMEMBER, SUNION, SINTER and SDIFF
-    (as base) answer an error and leave the state exactly as it was -/
+    (as base) answer an error and leave the state exactly as it was (SUNION reads the nil value of an entry
+    that holds only a deadline as an absent key, i.e. as the empty set — hence `v ≠ .nil` there) -/
 theorem wrongtype_no_change (c : Ctx) (s : State) (k m : Bytes) (v : Val) (ex : Option Int)
     (h : s.lookup c.db k = some ⟨v, ex⟩) (hlive : (⟨v, ex⟩ : Entry).expired c.now = false)
     (hv : asSet? v = none) :
@@ -1047,7 +1301,7 @@ theorem wrongtype_no_change (c : Ctx) (s : State) (k m : Bytes) (v : Val) (ex : 
     (handleSMembers c [b "smembers", k]).run c s = (s, .done (.err (notSet k))) ∧
     (handleSPop c [b "spop", k]).run c s = (s, .done (.err (notSetAt k))) ∧
     (handleSRandMember c [b "srandmember", k]).run c s = (s, .done (.err (notSetAt k))) ∧
-    (handleSUnion false c [b "sunion", k]).run c s = (s, .done (.err (notSet k))) ∧
+    (v ≠ .nil → (handleSUnion false c [b "sunion", k]).run c s = (s, .done (.err (notSet k)))) ∧
     (handleSInter 0 c [b "sinter", k]).run c s = (s, .done (.err (notSet k))) ∧
     (handleSDiff false c [b "sdiff", k]).run c s = (s, .done (.err (notSet k))) := by
   have hg := getValues_live _ _ _ _ h hlive
@@ -1063,8 +1317,10 @@ theorem wrongtype_no_change (c : Ctx) (s : State) (k m : Bytes) (v : Val) (ex : 
   · exact run_withSet_wrongtype c s _ k _ v ex _ _ _ h hlive hv
   · simp [handleSPop, countArg_none, keysExist_single, h, hg, hv]
   · simp [handleSRandMember, countArg_none, keysExist_single, h, hg, hv]
-  · simp [handleSUnion, hg, nthPerm_single, hv]
-  · simp [handleSInter, sinterReads, keysExist_single, h, sinterLimit, nthPerm_single, interLoop, hg, hv]
+  · intro hnil
+    have hn : notSetVal v = true := by cases v <;> simp_all [notSetVal, asSet?]
+    simp [handleSUnion, hg, hn]
+  · simp [handleSInter, handleSInterRead, sinterReads, keysExist_single, h, sinterLimit, nthPerm_single, interLoop, hg, hv]
   · simp [handleSDiff, keysExist_single, h, hg, hv]
 
 /-- **Wrong type fails and changes nothing**, SMOVE: a non-set source, or a non-set destination next to a set
@@ -1132,26 +1388,33 @@ theorem sintercard_limit_three_sets_replay :
     (∀ o, o < 6 → ((handleSInter 2 { db := 0, now := 1000, order := o } [b "sintercard", b "ta", b "tb", b "tc", b "limit", b "5"]).run
         { db := 0, now := 1000, order := o } (st [b "z"])).2 = .done (.ok (b ":1\r\n"))) := by decide
 
-/-- class `sinterstore-absent-operand-keeps-destination`: SINTERSTORE d a missing answers 0 but leaves the old
-    destination in place instead of replacing it with the empty result -/
-theorem sinterstore_absent_operand_keeps_destination_witness :
+/-- repaired upstream (was the witness of class `sinterstore-absent-operand-keeps-destination`, where the old
+    destination stayed in place): SINTERSTORE d a missing answers 0 and leaves the empty set at `d`, `a` untouched;
+    and with a string among the operands it fails whichever operand comes first, changing nothing -/
+theorem sinterstore_absent_operand_replay :
     let c : Ctx := { db := 0, now := 1000 }
-    let s : State := { dbs := [(0, ⟨[(b "a", ⟨.set 0 [b "x"], none⟩), (b "d", ⟨.set 0 [b "old"], none⟩)], []⟩)], mem := 0 }
-    (handleSInter 1 c [b "sinterstore", b "d", b "a", b "missing"]).run c s = (s, .done (.ok (b ":0\r\n"))) := by decide
+    let s : State := { dbs := [(0, ⟨[(b "a", ⟨.set 0 [b "x"], none⟩), (b "d", ⟨.set 0 [b "old"], none⟩), (b "t", ⟨.str (b "v"), none⟩)], []⟩)], mem := 0 }
+    let r := (handleSInter 1 c [b "sinterstore", b "d", b "a", b "missing"]).run c s
+    r.2 = .done (.ok (b ":0\r\n")) ∧ r.1.lookup 0 (b "d") = some ⟨.set 0 [], none⟩ ∧
+    r.1.lookup 0 (b "a") = some ⟨.set 0 [b "x"], none⟩ ∧
+    (∀ o, o < 6 → (handleSInter 1 { db := 0, now := 1000, order := o } [b "sinterstore", b "d", b "missing", b "t", b "a"]).run
+        { db := 0, now := 1000, order := o } s = (s, .done (.err (b "value at key t is not a set")))) := by decide
 
-/-- class `sunion-absent-key-rejected`: an absent key makes SUNION fail instead of contributing nothing -/
-theorem sunion_absent_key_rejected_witness :
+/-- repaired upstream (was the witness of class `sunion-absent-key-rejected`, where the command failed): an absent
+    key contributes nothing to SUNION, in either position; SUNION of absent keys only is the empty array -/
+theorem sunion_absent_key_replay :
     let c : Ctx := { db := 0, now := 1000 }
     let s : State := { dbs := [(0, ⟨[(b "a", ⟨.set 0 [b "x"], none⟩)], []⟩)], mem := 0 }
-    (handleSUnion false c [b "sunion", b "a", b "missing"]).run c s =
-      (s, .done (.err (b "value at key missing is not a set"))) := by decide
+    (handleSUnion false c [b "sunion", b "a", b "missing"]).run c s = (s, .done (.okPerm (b "*1\r\n") [b "$1\r\nx\r\n"])) ∧
+    (handleSUnion false c [b "sunion", b "missing", b "a"]).run c s = (s, .done (.okPerm (b "*1\r\n") [b "$1\r\nx\r\n"])) ∧
+    (handleSUnion false c [b "sunion", b "missing", b "gone"]).run c s = (s, .done (.okPerm (b "*0\r\n") [])) := by decide
 
-/-- class `sunion-mutates-operand`: the read-only SUNION a c leaves key `a` holding the union -/
-theorem sunion_mutates_operand_witness :
-    let c : Ctx := { db := 0, now := 1000 }
+/-- repaired upstream (was the witness of class `sunion-mutates-operand`, where key `a` was left holding the
+    union): SUNION a c answers both members and the state afterwards is the state before, whatever `Ctx.order` -/
+theorem sunion_leaves_operands_replay :
     let s : State := { dbs := [(0, ⟨[(b "a", ⟨.set 0 [b "x"], none⟩), (b "c", ⟨.set 0 [b "y"], none⟩)], []⟩)], mem := 0 }
-    ((handleSUnion false c [b "sunion", b "a", b "c"]).run c s).1.lookup 0 (b "a") = some ⟨.set 0 [b "x", b "y"], none⟩ := by
-  decide
+    ∀ o, o < 4 → (handleSUnion false { db := 0, now := 1000, order := o } [b "sunion", b "a", b "c"]).run { db := 0, now := 1000, order := o } s =
+      (s, .done (.okPerm (b "*2\r\n") [b "$1\r\nx\r\n", b "$1\r\ny\r\n"])) := by decide
 
 /-- class `srandmember-negative-count-capped`: SRANDMEMBER k -5 on a two-member set returns just the two
     members instead of five picks with repetition -/
@@ -1169,22 +1432,27 @@ theorem stale_key_witness :
     ((handleSCard c [b "scard", b "k"]).run c s).2 = .done (.err (b "value at key k is not a set")) ∧
     ((handleSAdd c [b "sadd", b "k", b "x"]).run c s).2 = .done (.err (b "value at key k is not a set")) := by decide
 
-/-- class `set-object-shared-between-keys`: SINTERSTORE d a stores the very object of `a` under `d`, so a later
-    SADD a y shows up in `d` — the reason every law above takes its sets as unshared (`.set 0 _`) -/
-theorem shared_object_witness :
+/-- repaired upstream (was the witness of class `set-object-shared-between-keys`, where SINTERSTORE d a stored the
+    very object of `a` under `d` and a later SADD a y showed up in `d`): `d` receives a copy, so SADD a y leaves it
+    alone -/
+theorem independent_copy_replay :
     let c : Ctx := { db := 0, now := 1000 }
     let s : State := { dbs := [(0, ⟨[(b "a", ⟨.set 0 [b "x"], none⟩)], []⟩)], mem := 0 }
     let s1 := ((handleSInter 1 c [b "sinterstore", b "d", b "a"]).run c s).1
     let s2 := ((handleSAdd c [b "sadd", b "a", b "y"]).run c s1).1
-    ((handleSIsMember c [b "sismember", b "d", b "y"]).run c s2).2 = .done (.ok (b ":1\r\n")) := by decide
+    s1.lookup 0 (b "d") = some ⟨.set 0 [b "x"], none⟩ ∧
+    ((handleSIsMember c [b "sismember", b "d", b "y"]).run c s2).2 = .done (.ok (b ":0\r\n")) ∧
+    ((handleSIsMember c [b "sismember", b "a", b "y"]).run c s2).2 = .done (.ok (b ":1\r\n")) := by decide
 
-/-- class `sunionstore-destination-aliases-source`: after SUNIONSTORE d a c the keys `a` and `d` hold one and the
-    same (mutated) object -/
-theorem sunionstore_aliases_witness :
+/-- repaired upstream (was the witness of class `sunionstore-destination-aliases-source`, where `a` and `d` ended up
+    holding one and the same mutated object): after SUNIONSTORE d a c the operands hold what they held and `d` holds
+    a separate, unshared object with the union -/
+theorem sunionstore_fresh_object_replay :
     let c : Ctx := { db := 0, now := 1000 }
     let s : State := { dbs := [(0, ⟨[(b "a", ⟨.set 0 [b "x"], none⟩), (b "c", ⟨.set 0 [b "y"], none⟩)], []⟩)], mem := 0 }
     let s1 := ((handleSUnion true c [b "sunionstore", b "d", b "a", b "c"]).run c s).1
-    s1.lookup 0 (b "a") = some ⟨.set 1 [b "x", b "y"], none⟩ ∧ s1.lookup 0 (b "d") = some ⟨.set 1 [b "x", b "y"], none⟩ := by decide
+    s1.lookup 0 (b "a") = some ⟨.set 0 [b "x"], none⟩ ∧ s1.lookup 0 (b "c") = some ⟨.set 0 [b "y"], none⟩ ∧
+    s1.lookup 0 (b "d") = some ⟨.set 0 [b "x", b "y"], none⟩ := by decide
 /-! ### non-vacuity: every conditional law above instantiated on a concrete state -/
 
 /-- database 0 at time 1000: `k` = {a,b,c} without deadline, `j` = {b,d} with a deadline still ahead,
@@ -1245,7 +1513,7 @@ example := sintercard_two c0 s0 (b "k") (b "j") [b "a", b "b", b "c"] [b "b", b 
   (by decide) plain_k.1 plain_k.2.1 (by decide) (by decide) (by decide) (by decide)
 example := sintercard_single_limit c0 s0 (b "k") (b "2") 2 [b "a", b "b", b "c"] none plain_k.1 (by decide) adapt_two.1 (by decide)
   (by decide) (by decide)
-example := sintercard_tail 1 (b "k") (b "k") [(0, [b "p", b "q"]), (0, [b "q", b "t"]), (0, [b "q", b "s"])] (by decide)
+example := sintercard_tail 1 [(0, [b "p", b "q"]), (0, [b "q", b "t"]), (0, [b "q", b "s"])] (by decide)
 example := sintercard_many_limit c0
   { dbs := [(0, ⟨[(b "ta", ⟨.set 0 [b "p", b "q", b "z"], none⟩), (b "tb", ⟨.set 0 [b "q", b "t", b "z"], none⟩),
                   (b "tc", ⟨.set 0 [b "q", b "s", b "z"], some 2000⟩)], []⟩)], mem := 0 }
@@ -1266,9 +1534,11 @@ example := sintercard_two_limit c0 s0 (b "k") (b "j") (b "2") 2 [b "a", b "b", b
   (by decide) plain_k.1 plain_k.2.1 (by decide) adapt_two.1 (by decide) (by decide) (by decide) (by decide) (by decide)
 example := sintercard_absent_operand c0 s0 (b "k") (b "z") [b "a", b "b", b "c"] none plain_k.1 plain_k.2.2
   (by decide) (by decide) (by decide)
-example := sunion_single c0 s0 (b "k") [b "a", b "b", b "c"] none (by decide) (by decide)
-example := sunion_two_reply c0 s0 (b "k") (b "j") [b "a", b "b", b "c"] [b "b", b "d"] none (some 2000)
+example := sunion_single c0 s0 (b "k") [b "a", b "b", b "c"] none (by decide) (by decide) (by decide)
+example := sunion_two c0 s0 (b "k") (b "j") [b "a", b "b", b "c"] [b "b", b "d"] none (some 2000)
   (by decide) (by decide) (by decide) (by decide) (by decide)
+example := sunion_absent_operand c0 s0 (b "k") (b "z") [b "a", b "b", b "c"] none (by decide) (by decide) (by decide)
+example := sunion_all_absent c0 s0 (b "z") (by decide)
 example := smove_moves c0 s0 (b "k") (b "j") (b "a") [b "a", b "b", b "c"] [b "b", b "d"] none (some 2000)
   (by decide) (by decide) (by decide) (by decide) (by decide) (by decide)
 example := smove_set_semantics c0 s0 (b "k") (b "j") (b "a") [b "a", b "b", b "c"] [b "b", b "d"] none (some 2000)
@@ -1305,6 +1575,16 @@ theorem operands_ok : ∀ k, k ∈ [b "j", b "z"] → SetOrAbsent c0 s0 k := by
   · exact Or.inr ⟨[b "b", b "d"], some 2000, by decide, by decide⟩
   · exact Or.inl (by decide)
 
+/-- in the concrete state `k` and `j` hold live sets and `z` is absent -/
+theorem operands_all_ok : ∀ k, k ∈ [b "k", b "j", b "z", b "k"] → SetOrAbsent c0 s0 k := by
+  intro k hk
+  simp only [List.mem_cons, List.not_mem_nil, or_false] at hk
+  rcases hk with rfl | rfl | rfl | rfl
+  · exact Or.inr ⟨[b "a", b "b", b "c"], none, by decide, by decide⟩
+  · exact Or.inr ⟨[b "b", b "d"], some 2000, by decide, by decide⟩
+  · exact Or.inl (by decide)
+  · exact Or.inr ⟨[b "a", b "b", b "c"], none, by decide, by decide⟩
+
 /-- in the concrete state neither `z` (absent) nor `j` (deadline ahead) is stale -/
 theorem not_stale_z : NotStale c0 s0 (b "z") ∧ NotStale c0 s0 (b "j") := by
   constructor
@@ -1320,8 +1600,21 @@ theorem not_stale_z : NotStale c0 s0 (b "z") ∧ NotStale c0 s0 (b "j") := by
 example := sdiff_many c0 s0 (b "k") [b "j", b "z"] [b "a", b "b", b "c"] none (by decide) (by decide) operands_ok
 example := sdiffstore_many c0 s0 (b "z") (b "k") [b "j", b "z"] [b "a", b "b", b "c"] none (by decide) (by decide) (by decide) operands_ok
 example := sinter_single c0 s0 (b "k") [b "a", b "b", b "c"] none (by decide) (by decide)
-example := sunionstore_two_partial c0 s0 (b "z") (b "k") (b "j") [b "a", b "b", b "c"] [b "b", b "d"] none (some 2000)
+example := sunionstore_two c0 s0 (b "z") (b "k") (b "j") [b "a", b "b", b "c"] [b "b", b "d"] none (some 2000)
   (by decide) (by decide) (by decide) (by decide) (by decide) (by decide)
+example := sunion_many c0 s0 [b "k", b "j", b "z", b "k"] (by decide) operands_all_ok
+example := sunionstore_many c0 s0 (b "k") [b "k", b "j", b "z", b "k"] (by decide) (by decide) operands_all_ok
+example := sinterstore_many c0 s0 (b "z") [b "k", b "j", b "k"] (by decide) (by decide) (fun k hk => operands_all_ok k (by
+  simp only [List.mem_cons, List.not_mem_nil, or_false] at hk ⊢; rcases hk with rfl | rfl | rfl <;> simp))
+example := sinterstore_many c0 s0 (b "j") [b "k", b "z"] (by decide) (by decide) (fun k hk => operands_all_ok k (by
+  simp only [List.mem_cons, List.not_mem_nil, or_false] at hk ⊢; rcases hk with rfl | rfl <;> simp))
+example := read_after_sunionstore c0 s0 (b "z") (b "k") (b "j") (b "d") [b "a", b "b", b "c"] [b "b", b "d"] none (some 2000)
+  (by decide) not_stale_z.1 (by decide) (by decide) (by decide) (by decide) (by decide)
+example := stored_copy_independent_of_source c0 s0 (b "z") (b "k") [b "a", b "b", b "c"] [b "q"] none (by decide) (by decide) (by decide)
+  (by decide) (by decide)
+example := sinterstore_single_copies c0 s0 (b "z") (b "k") [b "a", b "b", b "c"] none (by decide) (by decide) (by decide)
+example := sinterstore_absent_operand c0 s0 (b "j") (b "k") (b "z") [b "a", b "b", b "c"] none (by decide) (by decide) (by decide) (by decide)
+example := sinterstore_wrongtype_beats_absent c0 s0 (b "j") (b "z") (b "t") (.str (b "v")) none (by decide) (by decide) (by decide) (by decide)
 example := smove_same_key c0 s0 (b "k") (b "a") [b "a", b "b", b "c"] none (by decide) (by decide) (by decide) (by decide)
 example := sismember_after_smove c0 s0 (b "k") (b "j") (b "a") [b "a", b "b", b "c"] [b "b", b "d"] none (some 2000)
   (by decide) (by decide) (by decide) (by decide) (by decide) (by decide) (by decide)
